@@ -658,7 +658,7 @@ func checkC11(r *Report) {
 	p := loadResolve("", true)
 	e := runEffect(p)
 	effectTrusted(r)
-	r.Explain = "Only structural necessary conditions of 'the text of a set parses back to the same set' are decided; equality of matching over all constraints and versions is not. C11.a RANK-COVER: for each rank of a span, the fields span.contains consults when the span has that rank are fields span.String prints for that rank (a unit prints only its version, so matching a unit may depend only on that version; a vector prints both bounds and both open flags); otherwise two spans with the same text match differently and the re-parsed set cannot match like the original. C11.b PARSE-COVER: each span parseSpan builds for a rank sets every field String prints for that rank from the text. C11.c PRINT-PURE: Set.String and span.String write nothing reachable from their operands."
+	r.Explain = "Only structural necessary conditions of 'the text of a set parses back to the same set' are decided; equality of matching over all constraints and versions is not. C11.a RANK-COVER: for each rank of a span, the fields span.contains consults when the span has that rank are fields span.String prints for that rank (a unit prints only its version, so matching a unit may depend only on that version; a vector prints both bounds and both open flags); otherwise two spans with the same text match differently and the re-parsed set cannot match like the original. C11.b PARSE-COVER: each span parseSpan builds for a rank sets every field String prints for that rank from the text. C11.c PRINT-PURE: Set.String and span.String write nothing reachable from their operands. C11.d NUGET-FOURTH-ZERO: a function that fills the tail of a version with zeros (the lower bound of 1.2.3.*) re-applies the NuGet parser's normal form (a fourth number of 0 is dropped), because the printed text is read by that parser. C11.e INFINITY-READABLE: parseSpan parses both bounds of a vector with the same allowInfinity argument (the printer prints ∞ in either), and newSpan looks for ∞ in the point before it builds a unit span, since the text of a unit is read by Parse, which refuses ∞."
 	r.Assume = []string{"fields consulted by Set.matchVersion outside span.contains (ecosystem-specific prerelease rules read min/max of any rank) are not part of C11.a; a unit span has max == min by construction (newSpan, parseSpan)"}
 	str, con, ps := p.lookupFn("(semver.span).String"), p.lookupFn("(semver.span).contains"), p.lookupFn("(semver.System).parseSpan")
 	if str == nil || con == nil || ps == nil {
@@ -776,6 +776,10 @@ func checkC11(r *Report) {
 			r.bad("C11.c/PRINT-PURE", n, "", "function not found: anchor lost")
 		}
 	}
+	nFZ := fourthZeroRule(r, p, "C11.d/NUGET-FOURTH-ZERO")
+	r.floor("C11.d/NUGET-FOURTH-ZERO", "tails of versions filled with zeros", nFZ, 1)
+	nIR := infinityReadableRule(r, p, "C11.e/INFINITY-READABLE")
+	r.floor("C11.e/INFINITY-READABLE", "bound parses in parseSpan and unit spans built by newSpan", nIR, 3)
 }
 
 // constReturns: the integer constants a three-way comparator returns directly.
